@@ -63,9 +63,16 @@ func Open() *Trace {
 }
 
 func (t *Trace) Linef(format string, a ...any) {
+	// a case that kills the process must still be visible: everything before it is flushed
+	if strings.HasPrefix(format, "case ") || strings.HasPrefix(format, "%s") && len(a) == 1 && strings.HasPrefix(fmt.Sprint(a[0]), "case ") {
+		t.w.Flush()
+	}
 	fmt.Fprintf(t.w, format, a...)
 	t.w.WriteByte('\n')
 }
+
+// Flush forces the buffered lines out (engines call it before an operation that may kill the process).
+func (t *Trace) Flush() { t.w.Flush() }
 
 func (t *Trace) Close() {
 	t.w.Flush()
